@@ -16,7 +16,8 @@ import CoclsModel.MutexPtrProofs
   of `Meta.le`), `inv_flush` for the loop, `inv_step`, `inv_run`.
 * `mutex_race_free` (main theorem: any number of contenders, rounds, flavours; every schedule), `mutex_failure_orders_irrelevant`,
   `mutex_handoff_ordered`, `mutex_owner_dominates`; the bridge `step_erase` / `run_erase` / `run_reachable` / `run_is_arun` / `run_ptr_repr`; necessity witnesses
-  `mutex_needs_*` by `decide`, one per clause of `sufficient`.
+  `mutex_needs_*` by `decide`, one per clause of `sufficient`; `run_norm` (the machine sees an order only through `isAcq` / `isRel`),
+  `mutex_ready_acquire_necessary`, `mutex_unlock_release_necessary` (for EVERY table violating the clause).
 -/
 
 namespace Cocls.MutexClock
@@ -878,5 +879,81 @@ theorem mutex_needs_flag_acquire : (run { ordersNow with flagWait := Order.relax
 path, the coroutine is resumed, the blocking waiter is woken through its flag — and nothing races -/
 example : (run ordersNow cfg3 sched3).raced = false ∧ (run ordersNow cfg3 sched3).m.grantLog = [0, 1, 2]
     ∧ (run ordersNow cfg3 sched3).data.wr.1 = 2 ∧ (run ordersNow cfg3 sched3).m.req = [] := by decide
+
+/-! ### what the machine sees of an order; general necessity of the CAS hand-over clauses
+
+The machine looks at an order only through `isAcq` / `isRel` (a failing CAS and a wait only through `isAcq`, a plain store only
+through `isRel`): `run_norm`.  For the two clauses of the pure CAS hand-over (`ready()` acquire, `unlock` release) the racing run is
+exhibited for EVERY table that violates the clause (finite case analysis over the bits the witness schedule exercises); for the other
+four clauses the witnesses are the `decide`d runs `mutex_needs_*` above (all other orders as in the source): the case analysis over
+the seven orders their schedules exercise is out of reach of the elaborator's evaluator. -/
+
+def Order.ofBits : Bool → Bool → Order
+  | false, false => Order.relaxed
+  | true, false => Order.acquire
+  | false, true => Order.release
+  | true, true => Order.acq_rel
+
+theorem isAcq_ofBits (a r : Bool) : (Order.ofBits a r).isAcq = a := by cases a <;> cases r <;> rfl
+theorem isRel_ofBits (a r : Bool) : (Order.ofBits a r).isRel = r := by cases a <;> cases r <;> rfl
+
+/-- the same table up to what the machine can see of it -/
+def MutexOrders.norm (o : MutexOrders) : MutexOrders :=
+  { ready := Order.ofBits o.ready.isAcq o.ready.isRel, readyFail := Order.ofBits o.readyFail.isAcq false,
+    subOk := Order.ofBits o.subOk.isAcq o.subOk.isRel, subFail := Order.ofBits o.subFail.isAcq false,
+    build := Order.ofBits o.build.isAcq o.build.isRel,
+    unlockOk := Order.ofBits o.unlockOk.isAcq o.unlockOk.isRel, unlockFail := Order.ofBits o.unlockFail.isAcq false,
+    flagStore := Order.ofBits false o.flagStore.isRel, flagWait := Order.ofBits o.flagWait.isAcq false }
+
+theorem relVc_congr {x y : Order} (h : x.isRel = y.isRel) : relVc x = relVc y := by
+  funext c i; simp only [Clock.relVc_apply, h]
+theorem acqVc_congr {x y : Order} (h : x.isAcq = y.isAcq) : acqVc x = acqVc y := by
+  funext c m i; simp only [Clock.acqVc_apply, h]
+theorem tickIf_congr {x y : Order} (h : x.isRel = y.isRel) : tickIf x = tickIf y := by
+  funext c t i; simp only [Clock.tickIf_apply, h]
+
+theorem rmw_congr {x y : Order} (h1 : x.isAcq = y.isAcq) (h2 : x.isRel = y.isRel) : rmw x = rmw y := by
+  funext s a; simp only [rmw, relVc_congr h2, acqVc_congr h1, tickIf_congr h2]
+theorem casFail_congr {x y : Order} (h1 : x.isAcq = y.isAcq) : casFail x = casFail y := by
+  funext s a; simp only [casFail, acqVc_congr h1]
+theorem flagStore_congr {x y : Order} (h2 : x.isRel = y.isRel) : flagStore x = flagStore y := by
+  funext s a b; simp only [flagStore, relVc_congr h2, tickIf_congr h2]
+theorem flagWait_congr {x y : Order} (h1 : x.isAcq = y.isAcq) : flagWait x = flagWait y := by
+  funext s a; simp only [flagWait, acqVc_congr h1]
+
+theorem step_norm (o : MutexOrders) (c : Cfg) : step o c = step o.norm c := by
+  have e1 : rmw o.ready = rmw o.norm.ready := rmw_congr (isAcq_ofBits _ _).symm (isRel_ofBits _ _).symm
+  have e2 : casFail o.readyFail = casFail o.norm.readyFail := casFail_congr (isAcq_ofBits _ _).symm
+  have e3 : rmw o.subOk = rmw o.norm.subOk := rmw_congr (isAcq_ofBits _ _).symm (isRel_ofBits _ _).symm
+  have e4 : casFail o.subFail = casFail o.norm.subFail := casFail_congr (isAcq_ofBits _ _).symm
+  have e5 : rmw o.build = rmw o.norm.build := rmw_congr (isAcq_ofBits _ _).symm (isRel_ofBits _ _).symm
+  have e6 : rmw o.unlockOk = rmw o.norm.unlockOk := rmw_congr (isAcq_ofBits _ _).symm (isRel_ofBits _ _).symm
+  have e7 : casFail o.unlockFail = casFail o.norm.unlockFail := casFail_congr (isAcq_ofBits _ _).symm
+  have e8 : flagStore o.flagStore = flagStore o.norm.flagStore := flagStore_congr (isRel_ofBits _ _).symm
+  have e9 : flagWait o.flagWait = flagWait o.norm.flagWait := flagWait_congr (isAcq_ofBits _ _).symm
+  funext s a
+  simp only [step, instr, iTop, iSub, iBuild, iWait, iUnlock, iHand, iRelBuild, iRelHand, e1, e2, e3, e4, e5, e6, e7, e8, e9]
+
+theorem run_norm (o : MutexOrders) (c : Cfg) (sched : List Nat) : run o c sched = run o.norm c sched := by
+  unfold run; rw [step_norm]
+
+
+/-- every order table whose `ready()` CAS does not acquire has a racing run, whatever the other eight orders are -/
+theorem mutex_ready_acquire_necessary (o : MutexOrders) (h : o.ready.isAcq = false) : (run o cfgTry schedTry).raced = true := by
+  rw [run_norm]
+  obtain ⟨r, rf, so, sf, b, uo, uf, fs, fw⟩ := o
+  simp only [MutexOrders.norm] at h ⊢
+  simp only [h]
+  generalize r.isRel = b1; generalize uo.isAcq = b2; generalize uo.isRel = b3
+  cases b1 <;> cases b2 <;> cases b3 <;> rfl
+
+/-- every order table whose `unlock` CAS does not release has a racing run, whatever the other eight orders are -/
+theorem mutex_unlock_release_necessary (o : MutexOrders) (h : o.unlockOk.isRel = false) : (run o cfgTry schedTry).raced = true := by
+  rw [run_norm]
+  obtain ⟨r, rf, so, sf, b, uo, uf, fs, fw⟩ := o
+  simp only [MutexOrders.norm] at h ⊢
+  simp only [h]
+  generalize r.isRel = b1; generalize uo.isAcq = b2; generalize r.isAcq = b3
+  cases b1 <;> cases b2 <;> cases b3 <;> rfl
 
 end Cocls.MutexClock
